@@ -429,6 +429,8 @@ func (vc *VC) inline(d *callDesc) ([]string, bool) {
 		ch.vals[fv] = ch.declare("fv_"+fv.Name(), vc.pre.sortOf(fv.Type()))
 	}
 	ch.cur, ch.st = vc.cur, vc.st.clone()
+	ch.assumeConstGlobals(fn)
+	vc.cur = ch.cur
 	vc.r().inlined[funcKey(fn)] = true
 	var collected []inlRet
 	ch.retsP = &collected
